@@ -250,16 +250,32 @@ def extract(repo):
     # ---- fedex.c main ---------------------------------------------------------------------------------------------
     fx = _strip_comments(fedex)
     mainb = _body(fx, r"\bint\s+main\s*\(\s*int\s+argc\s*,\s*char\s*\*\*\s*argv\s*\)\s*\{")
-    if not re.search(r"int\s+no_warnings\s*=\s*1\s*;", mainb):
-        raise ValueError("fedex main: `int no_warnings = 1` not found")
-    m = re.search(r"case\s+'i'\s*:\s*case\s+'w'\s*:\s*no_warnings\s*=\s*0\s*;\s*ERRORset_warning\s*\(\s*sc_optarg\s*,\s*c\s*==\s*'(\w)'\s*\)\s*;", mainb)
-    if not m:
-        raise ValueError("fedex main: -i/-w case not in the expected form")
-    override_letter = m.group(1)
-    m = re.search(r"if\s*\(\s*no_warnings\s*\)\s*\{\s*ERRORset_all_warnings\s*\(\s*(\d+|true|false)\s*\)\s*;", mainb)
-    if not m:
-        raise ValueError("fedex main: `if( no_warnings ) ERRORset_all_warnings( . )` not found")
-    default_override = m.group(1) in ("1", "true")
+    # the option loop and the warning switches.  Two forms:
+    #  (a) int no_warnings = 1; ... case 'i': case 'w': no_warnings = 0; ERRORset_warning( sc_optarg, c == 'X' ); ...
+    #      after the loop: if( no_warnings ) ERRORset_all_warnings( D );            -> a switch changes its own class only
+    #  (b) ERRORset_all_warnings( D ); before the loop and every -i/-w does ERRORset_all_warnings( R ); ERRORset_warning( ... )
+    #      -> every switch first resets ALL warning classes (undoing the earlier switches)
+    ma = re.search(r"case\s+'i'\s*:\s*case\s+'w'\s*:\s*no_warnings\s*=\s*0\s*;\s*ERRORset_warning\s*\(\s*sc_optarg\s*,\s*c\s*==\s*'(\w)'\s*\)\s*;", mainb)
+    mb = re.search(r"case\s+'i'\s*:\s*case\s+'w'\s*:\s*ERRORset_all_warnings\s*\(\s*(\d+|true|false)\s*\)\s*;\s*ERRORset_warning\s*\(\s*sc_optarg\s*,\s*c\s*==\s*'(\w)'\s*\)\s*;", mainb)
+    if ma and not mb:
+        if not re.search(r"int\s+no_warnings\s*=\s*1\s*;", mainb):
+            raise ValueError("fedex main: `int no_warnings = 1` not found")
+        override_letter = ma.group(1)
+        m = re.search(r"if\s*\(\s*no_warnings\s*\)\s*\{\s*ERRORset_all_warnings\s*\(\s*(\d+|true|false)\s*\)\s*;", mainb)
+        if not m:
+            raise ValueError("fedex main: `if( no_warnings ) ERRORset_all_warnings( . )` not found")
+        default_override = m.group(1) in ("1", "true")
+        switch_resets_all = False
+    elif mb and not ma:
+        override_letter = mb.group(2)
+        pre = mainb[:mainb.find("sc_getopt(")]
+        m = re.search(r"ERRORset_all_warnings\s*\(\s*(\d+|true|false)\s*\)\s*;", pre)
+        if not m or "no_warnings" in mainb or mb.group(1) in ("1", "true"):
+            raise ValueError("fedex main: the reset-per-switch form of the option loop is not the modelled one")
+        default_override = m.group(1) in ("1", "true")
+        switch_resets_all = True
+    else:
+        raise ValueError("fedex main: -i/-w case not in a modelled form")
     # gates: where main() looks at ERRORoccurred between its three phases.  Two forms are recognised:
     #  (a) after a phase:  if( ERRORoccurred ) { result = EXPRESS_fail( model ); ... return result; }
     #  (b) one flag:       failed = ERRORoccurred;  after a phase, the next phases guarded by `!failed &&`, and
@@ -357,6 +373,8 @@ def extract(repo):
           f"def plainPrefixWarning : String := {_lean_str(m2.group(1))}",
           "/-- `ERRORreport` prints the numeric severity right after the WARNING prefix -/",
           f"def plainWarningPrintsSeverity : Bool := {'true' if report_warn_prints_severity else 'false'}",
+          "/-- every `-w` or `-i` switch first switches ALL warning classes on again (undoing what earlier switches set) before it sets its own class -/",
+          f"def switchResetsAll : Bool := {'true' if switch_resets_all else 'false'}",
           "/-- buffered (`-B`) messages are terminated by a newline when flushed -/",
           f"def bufferedNewline : Bool := {'true' if buffered_newline else 'false'}",
           "/-- with `-B`, a full message area / heap ends the run with the failure status (else: flush, restart the buffer, go on) -/",
